@@ -299,10 +299,10 @@ class AnsiString:
         Attempts to simplify formatting by re-parsing the ANSI formatting data. This will throw out any data internally
         determined as invalid and remove redundant settings.
         '''
-        # First remove any settings which are completely invalid
+        # First remove any settings which are completely invalid or which would not be read back as a graphic rendition
         for point in self._fmts.values():
-            point.add = [x for x in point.add if x.valid]
-            point.rem = [x for x in point.rem if x.valid]
+            point.add = [x for x in point.add if x.valid and re.search(r'^[0-9; ]*\Z', str(x))]
+            point.rem = [x for x in point.rem if x.valid and re.search(r'^[0-9; ]*\Z', str(x))]
         # Re-parse string
         self.set_ansi_str(str(self))
 
